@@ -78,6 +78,7 @@ fn alphabet(fam: &Family, big: bool) -> Vec<Vec<f64>> {
             base.iter().map(|a| a[..*p].to_vec()).collect()
         }
         Family::PolyMat(s) => [1.0, 1e4, 1e-4, 3.0].iter().map(|a| vec![*a; s.p]).collect(),
+        Family::ExpN(n) => (0..4).map(|v| (0..*n).map(|j| 0.4 * 2.0f64.powi(j as i32) * (1.0 + 0.1 * v as f64)).collect()).collect(),
     };
     if big {
         let extra: Vec<Vec<f64>> = v.iter().take(3).map(|a| a.iter().enumerate().map(|(k, x)| x * (1.0 + 0.07 * (k as f64 + 1.0))).collect()).collect();
@@ -191,6 +192,8 @@ enum Role {
     AbsWeights(usize),
     /// single-rhs problem for column s (C07)
     SingleCol(usize),
+    /// single-rhs problem for column s in the other flavour (the single problem "yields" the same in both flavours)
+    SingleColOther(usize),
 }
 
 fn build_role<T: Sc>(env: &Env<T>, sc: &Scen, role: &Role, a: &[T]) -> Box<dyn Prob<T>> {
@@ -220,9 +223,10 @@ fn build_role<T: Sc>(env: &Env<T>, sc: &Scen, role: &Role, a: &[T]) -> Box<dyn P
             let w2 = env.w.as_ref().map(|w| w.map(|v| num_traits::Float::abs(v)));
             prob::build(env.model(sc, a), &env.y, w2.as_ref(), env.eps, sc.api, sc.par).unwrap()
         }
-        Role::SingleCol(s) => {
+        Role::SingleCol(s) | Role::SingleColOther(s) => {
             let y1 = DMatrix::from_column_slice(sc.n, 1, env.y.column(*s).clone_owned().as_slice());
-            prob::build(env.model(sc, a), &y1, env.w.as_ref(), env.eps, Api::Single, sc.par).unwrap()
+            let par = if matches!(role, Role::SingleColOther(_)) { !sc.par } else { sc.par };
+            prob::build(env.model(sc, a), &y1, env.w.as_ref(), env.eps, Api::Single, par).unwrap()
         }
     }
 }
@@ -248,6 +252,7 @@ fn roles_for(sc: &Scen, prop: &str) -> Vec<Role> {
             for s in 0..sc.ycols.len() {
                 r.push(Role::SingleCol(s));
             }
+            r.push(Role::SingleColOther(sc.ycols.len() - 1));
         }
         _ => {}
     }
@@ -508,7 +513,7 @@ impl<'a, T: Sc> Explorer<'a, T> {
                     self.bitwise_equal_twins += 1;
                 }
             }
-            Role::RowScaled | Role::AbsWeights(_) | Role::RowDeleted(_) | Role::SingleCol(_) => {
+            Role::RowScaled | Role::AbsWeights(_) | Role::RowDeleted(_) | Role::SingleCol(_) | Role::SingleColOther(_) => {
                 if s.present() != t.present() {
                     self.violate(&prop, "twin-presence-differs", format!("{:?}: one problem exposes values, the other does not", role));
                     return;
@@ -582,7 +587,7 @@ impl<'a, T: Sc> Explorer<'a, T> {
                             }
                         }
                     }
-                    Role::SingleCol(col) => {
+                    Role::SingleCol(col) | Role::SingleColOther(col) => {
                         let m = sc_.nrows();
                         for j in 0..m {
                             cmp("coefficient", sc_[(j, *col)], tc[(j, 0)], cscale);
@@ -612,7 +617,7 @@ impl<'a, T: Sc> Explorer<'a, T> {
                         Role::RowScaled => "weighted-differs-from-row-scaled",
                         Role::AbsWeights(_) => "negative-weight-not-a-sign-flip",
                         Role::RowDeleted(_) => "zero-weight-sample-has-influence",
-                        Role::SingleCol(_) => "mrhs-block-differs-from-single-rhs",
+                        Role::SingleCol(_) | Role::SingleColOther(_) => "mrhs-block-differs-from-single-rhs",
                         _ => unreachable!(),
                     };
                     self.violate(&prop, sig, format!("{:?} at alphabet entry {}: {}", role, ai, msg));
@@ -902,6 +907,13 @@ fn scenarios(prop: &str, thorough: bool) -> Vec<Scen> {
                                     s.alphas.truncate(4);
                                     s.depth = 2;
                                     v.push(s);
+                                    // the rank-deficient corner (duplicate columns, user threshold): blocks must still agree
+                                    if fi >= 1 && fi <= 2 && si % 7 == 0 {
+                                        let mut s = mk(fam, *n, prov, f32_, par, Api::Mrhs, sel.clone(), *w, EpsKind::Val(if f32_ { 1e-3 } else { 1e-8 }));
+                                        s.alphas = vec![s.alphas[0].clone(), s.alphas[1].clone(), s.alphas[4].clone()];
+                                        s.depth = 2;
+                                        v.push(s);
+                                    }
                                 }
                             }
                         }
